@@ -248,7 +248,7 @@ func runCheck(id, tier string, seed int) int {
 		if !containsStr(plan.Packages, pkg) || fc.Pkg != pkg {
 			continue
 		}
-		if P.lookupFunc(key) == nil && !fc.Flags["trusted"] {
+		if P.lookupFunc(key) == nil && !fc.Flags["trusted"] && !fc.Flags["functype"] {
 			problems = append(problems, "contract for a function that does not exist: "+key)
 		}
 	}
@@ -377,7 +377,7 @@ func runCheck(id, tier string, seed int) int {
 			path := reportViolation(P, id, j, o)
 			lines = append(lines, path)
 		}
-		if nonCover == 0 && len(j.pf.Select) > 0 && !strings.Contains(j.pf.Key, "*") {
+		if nonCover == 0 && len(j.pf.Select) > 0 && !strings.Contains(j.pf.Key, "*") && !containsStr(j.pf.Select, "optional") {
 			problems = append(problems, "no obligation selected for "+j.key+" (vacuous plan entry)")
 		}
 	}
